@@ -456,12 +456,20 @@ class C20(Property):
         # names and lexemes as inputs, enumerated (keyword-like identifiers in every identifier
         # position, every string/raw-string form in every literal position, route paths, @server
         # values, white-space and encoding variants of one program): all ~1150 tiny programs in the
-        # thorough tier, a random half of them per quick run
+        # thorough tier, a random third of them per quick run
         if tier != "search":
             core = set(c20gen.lexeme_core())
             lm = [x for x in c20gen.lexeme_matrix() if x not in core]
-            for src in (lm if tier == "thorough" else rng.sample(lm, len(lm) // 2)):
+            for src in (lm if tier == "thorough" else rng.sample(lm, len(lm) // 3)):
                 cases.append({"src": src, "muts": []})
+        # invalid sources, enumerated: per-position single-character mutations of a small corpus that
+        # uses every construct (each one a case of its own: model scanner / model parser must agree
+        # with goctl on where and whether it is rejected; rejected = an error, not a crash).  One slice
+        # of them per quick run (which one depends on VERIF_SEED), a quarter in the thorough tier.
+        if tier != "search":
+            parts = 48 if tier == "quick" else 4
+            for src in c20gen.char_mutations(rng.randrange(parts), parts):
+                cases.append({"src": src, "muts": [], "enum": True})
         on = {f: self._on(f) for f in (F10, F15, F16, F17, F18, F19, F20, F21, F24, F25)}
         for i in range(n):
             opts = {"percent": on[F18] and rng.random() < 0.3,
@@ -513,9 +521,10 @@ class C20(Property):
             # smaller instance of the same failure (it would drift to the parser-crash findings)
             obs["skipped"] = "shrink candidate no longer valid"
             return "mkCase None None true [] [] [] (Some []) OOk OOk [] [] (Some []) true true true true false []"
-        if case.get("expect_valid"):
-            # deleting lines can glue two route lines into one path with adjacent identifiers
-            # ("/a b", which goctl reads as "/ab"): outside the model's [wf], not a smaller instance
+        if (case.get("expect_valid") or case.get("enum")) and obs["pout"] == "ok" and obs["fout"] == "ok":
+            # deleting lines / one character can glue two route lines into one path with adjacent
+            # identifiers ("/a b", which goctl reads as "/ab"): outside the model's [wf], not a smaller
+            # instance / not an instance of the enumerated class
             cls, _ = c20gaps.classify(obs["toks"])
             if any(a == "P:id" and b2 == "P:id" for a, b2 in zip(cls, cls[1:])):
                 obs["skipped"] = "shrink candidate with adjacent identifiers in a path"
@@ -679,7 +688,12 @@ class C20(Property):
     def features(self, case, obs):
         fs = []
         if obs["pout"] != "ok":
-            return ["rejected_by_go_parser"]
+            # where an invalid source is rejected: by an error of the scanner, by an ILLEGAL token the
+            # scanner hands to the parser, or by the grammar (every token legal)
+            how = "scanner_error" if obs.get("serr") else \
+                "illegal_token" if (obs["toks"] and obs["toks"][-1][0] == "ILLEGAL") else "grammar"
+            return ["rejected_by_go_parser", "invalid_rejected_by_" + how] + \
+                   ["mutant_rejected_by_" + k for k in obs.get("mutk", []) if k not in ("ok", "crash")]
         for s in obs["ast"] or []:
             fs.append("stmt_" + s[0])
             if s[0] == "service":
@@ -718,6 +732,7 @@ class C20(Property):
             fs.append("empty_construct_removed")
         fs.append("mutants=%d" % len(obs["muts"]))
         fs += ["mutant_" + (m if m in ("ok", "err") else "crash") for m in obs["muts"]]
+        fs += ["mutant_rejected_by_" + k for k in obs.get("mutk", []) if k not in ("ok", "crash")]
         return fs
 
     def shrink_candidates(self, case):
